@@ -8,8 +8,8 @@ CONSTANTS
   Devs = {}
   LevelSet = {"3"}
   Focus = "session"
-  MaxOps = 9
-  MaxProbes = 2
+  MaxOps = 8
+  MaxProbes = 1
   SetLevels = {}
 INIT GInit
 NEXT GNext
